@@ -6,6 +6,7 @@ the native (little-endian) order and write the BOM on the first encode call, as
 CPython does.  ``validate()`` compares every model with CPython on a boundary
 alphabet and every cut."""
 import codecs as _codecs
+from vp.harness import unmodelled, unmodelled_attr
 
 
 def _norm(enc):
@@ -13,7 +14,23 @@ def _norm(enc):
     return {'utf8': 'utf-8', 'utf16': 'utf-16', 'utf32': 'utf-32', 'latin1': 'latin-1', 'iso-8859-1': 'latin-1'}.get(e, e)
 
 
-class U8Enc(object):
+class _Inc(object):
+    """constructor and attribute surface shared by the incremental models: IncrementalEncoder/Decoder(errors='strict'), encode/decode(input, final=False)"""
+
+    def __init__(self, errors='strict'):
+        if errors != 'strict':
+            unmodelled('incremental codec with errors=%r' % (errors,))
+        self.errors = errors
+        self._init()
+
+    def _init(self):
+        pass
+
+    def __getattr__(self, name):
+        unmodelled_attr('incremental codec .', name)
+
+
+class U8Enc(_Inc):
     def encode(self, s, final=False):
         out = []
         for ch in s:
@@ -31,8 +48,8 @@ class U8Enc(object):
         return bytes(out)
 
 
-class U8Dec(object):
-    def __init__(self):
+class U8Dec(_Inc):
+    def _init(self):
         self.pend = []
 
     def decode(self, data, final=False):
@@ -60,8 +77,8 @@ class U8Dec(object):
         return ''.join(out)
 
 
-class U16Enc(object):
-    def __init__(self):
+class U16Enc(_Inc):
+    def _init(self):
         self.bom = False
 
     def encode(self, s, final=False):
@@ -83,8 +100,8 @@ class U16Enc(object):
         return bytes(out)
 
 
-class U16Dec(object):
-    def __init__(self):
+class U16Dec(_Inc):
+    def _init(self):
         self.pend = []
         self.order = None      # None until the BOM position has been examined
 
@@ -119,8 +136,8 @@ class U16Dec(object):
         return ''.join(out)
 
 
-class U32Enc(object):
-    def __init__(self):
+class U32Enc(_Inc):
+    def _init(self):
         self.bom = False
 
     def encode(self, s, final=False):
@@ -136,8 +153,8 @@ class U32Enc(object):
         return bytes(out)
 
 
-class U32Dec(object):
-    def __init__(self):
+class U32Dec(_Inc):
+    def _init(self):
         self.pend = []
         self.order = None
 
@@ -168,7 +185,7 @@ class U32Dec(object):
         return ''.join(out)
 
 
-class L1Enc(object):
+class L1Enc(_Inc):
     def encode(self, s, final=False):
         out = []
         for ch in s:
@@ -179,7 +196,7 @@ class L1Enc(object):
         return bytes(out)
 
 
-class L1Dec(object):
+class L1Dec(_Inc):
     def decode(self, data, final=False):
         return ''.join(chr(b) for b in data)
 
@@ -188,18 +205,29 @@ ENC = {'utf-8': U8Enc, 'utf-16': U16Enc, 'utf-32': U32Enc, 'latin-1': L1Enc}
 DEC = {'utf-8': U8Dec, 'utf-16': U16Dec, 'utf-32': U32Dec, 'latin-1': L1Dec}
 
 
-class FakeCodecs(object):
+class _FakeCodecs(object):
+    """stands in for the ``codecs`` module inside rxsci.data.codec: the two incremental factories are modelled, anything else is reported as not modelled"""
     calls = []
 
-    @staticmethod
-    def getincrementalencoder(enc):
-        FakeCodecs.calls.append(('enc', enc))
-        return ENC[_norm(enc)]
+    def _get(self, table, enc):
+        key = _norm(enc) if isinstance(enc, str) else enc
+        if key not in table:
+            unmodelled('codec %r' % (enc,))
+        return table[key]
 
-    @staticmethod
-    def getincrementaldecoder(enc):
-        FakeCodecs.calls.append(('dec', enc))
-        return DEC[_norm(enc)]
+    def getincrementalencoder(self, encoding):
+        self.calls.append(('enc', encoding))
+        return self._get(ENC, encoding)
+
+    def getincrementaldecoder(self, encoding):
+        self.calls.append(('dec', encoding))
+        return self._get(DEC, encoding)
+
+    def __getattr__(self, name):
+        unmodelled_attr('codecs.', name)
+
+
+FakeCodecs = _FakeCodecs()
 
 
 ALPHABET = [0x0, 0x41, 0x7F, 0x80, 0x7FF, 0x800, 0xD7FF, 0xE000, 0xFEFF, 0xFFFF, 0x10000, 0x10FFFF, 0x0A, 0x301]
